@@ -18,6 +18,20 @@ pub trait EntrySink<E>: Sized {
     fn append(&self, entry: E) ensures was_appended(*self, entry);
 }
 pub type RootMetric<E> = RootEntry<<E as CloseValue>::Closed>;
+// keep_alive.rs (its protocol: Kani group keepalive, bounded): here only WHICH keep-alive a guard belongs to
+#[verifier::external_body] #[verifier::reject_recursive_types(T)] pub struct Parent<T> { _p: core::marker::PhantomData<T> }
+#[verifier::external_body] pub struct Guard { _p: u8 }
+#[verifier::external_body] pub struct DropAll { _p: u8 }
+pub uninterp spec fn keeps_alive<T>(g: Guard, p: Parent<T>) -> bool;
+pub uninterp spec fn force_drops<T>(g: DropAll, p: Parent<T>) -> bool;
+impl<T> Parent<T> {
+    pub uninterp spec fn owned(&self) -> T;
+    #[verifier::external_body] pub fn new(t: T) -> (r: Parent<T>) ensures r.owned() == t { unimplemented!() }
+    #[verifier::external_body] pub fn new_guard(&self) -> (r: Guard) ensures keeps_alive(r, *self) { unimplemented!() }
+    #[verifier::external_body] pub fn force_drop_guard(&self) -> (r: DropAll) ensures force_drops(r, *self) { unimplemented!() }
+}
+use std::marker::PhantomPinned;
+#[verifier::external_type_specification] pub struct ExPhantomPinned(std::marker::PhantomPinned);
 '''
 
 ITEMS = [
@@ -37,6 +51,18 @@ ITEMS = [
             final(self).entry is None,                                                               // OBL entry_is_taken_so_it_cannot_be_appended_again
             final(self).sink == old(self).sink,
          """),
+    # the owner's one-line constructors: each guard belongs to THIS entry's keep-alive
+    dict(kind="struct", file=L, name="AppendAndCloseOnDrop", attrs=["#[verifier::reject_recursive_types(E)]", "#[verifier::reject_recursive_types(S)]"]),
+    dict(kind="struct", file="metrique/src/slot.rs", name="FlushGuard"),
+    dict(kind="struct", file="metrique/src/slot.rs", name="ForceFlushGuard"),
+    dict(kind="fn", file="metrique/src/slot.rs", impl=r"^impl ForceFlushGuard$", name="new", ret="r", label="ForceFlushGuard::new", sig_replace=[("pub(crate) fn", "pub fn")],
+         ensures="r._drop_guard == _drop_guard,"),
+    dict(kind="fn", file=L, impl=None, name="append_and_close", ret="r", label="append_and_close",
+         ensures="r.inner.owned() == (AppendAndCloseOnDropInner { entry: Some(base), sink }),      // OBL owner_holds_the_entry_and_the_sink"),
+    dict(kind="fn", file=L, impl=r"^impl < E : CloseEntry \+ Send \+ Sync \+ 'static , S : EntrySink < RootMetric < E >> \+ Send \+ Sync \+ 'static > AppendAndCloseOnDrop < E , S >$", name="flush_guard", ret="r", label="AppendAndCloseOnDrop::flush_guard",
+         ensures="keeps_alive(r._drop_guard, self.inner),      // OBL flush_guard_belongs_to_this_entry"),
+    dict(kind="fn", file=L, impl=r"^impl < E : CloseEntry \+ Send \+ Sync \+ 'static , S : EntrySink < RootMetric < E >> \+ Send \+ Sync \+ 'static > AppendAndCloseOnDrop < E , S >$", name="force_flush_guard", ret="r", label="AppendAndCloseOnDrop::force_flush_guard",
+         ensures="force_drops(r._drop_guard, self.inner),      // OBL force_flush_guard_belongs_to_this_entry"),
 ]
 POSTLUDE = ""
 CANARY = dict(fn="AppendAndCloseOnDropInner::drop", replace=("final(self).entry is None,", "final(self).entry is Some,"))
